@@ -141,14 +141,21 @@ def ros_latch():
 
 
 # ---------------------------------------------------------------- resource bound
-GROWTH = {
-    "pow_tower": lambda a, b, d: f"{a}**{b}**{d}",
-    "factorial": lambda a, b, d: f"factorial({a})",
-    "pow": lambda a, b, d: f"{a}**{d}",
-    "sum_small": lambda a, b, d: f"{a}+{b}+{d}",
-}
-BUDGET_BITS = 1 << 26          # result size a 1 s timeout could not possibly cover with a base >= 3
-GROWTH_OPS = ("pow_tower", "factorial")
+# What one second of evaluation could possibly produce (bits of one result). Deliberately generous (4x the
+# engine's own constant at the time of writing): the clause is "bounded by the timeout", not "by my constant".
+ALLOWED_BITS_PER_SECOND = 1 << 22
+SHAPES = ["pow", "pow_tower", "factorial", "str_repeat", "list_repeat", "int_mult", "sum_small"]
+GROWTH_SHAPES = ("pow", "pow_tower", "factorial", "str_repeat", "list_repeat", "int_mult")
+
+
+class Big:
+    """cost-only stand-in for the result of a growth operator on symbolic operands: an int of `bits` bits"""
+
+    def __init__(self, bits):
+        self.bits = bits
+
+    def bit_length(self):
+        return self.bits
 
 
 def pow_table(b, d, hi=40):
@@ -160,53 +167,146 @@ def pow_table(b, d, hi=40):
     return t
 
 
+def expr_text(kind, a, b, d, n):
+    return {"pow": f"{a}**{n}", "pow_tower": f"{a}**{b}**{d}", "factorial": f"factorial({n})", "str_repeat": f"'ab'*{n}",
+            "list_repeat": f"[0, 1]*{n}", "int_mult": f"(2**{d})*(2**{d})*{a}", "sum_small": f"{a}+{b}+{d}"}[kind]
+
+
 def resource():
-    """C01.d the work an accepted (short) expression can cause is bounded by the
-    configured timeout. z3 picks the operands against a lower-bound size model of
-    CPython's big-int results; the replay evaluates the concrete expression with the
-    real engine in a child process under a wall-clock limit of 3 x timeout + 2 s."""
+    """C01.d: the size of any result an accepted expression makes the engine compute is bounded by the
+    configured timeout. The REAL walker (and whatever guard it has) runs on a tree with symbolic integer
+    operands; the growth operators are wrapped by cost monitors that return a size-only stand-in, so
+    z3 decides `the real code lets this operation through  =>  its result fits the timeout's budget`.
+    Replay evaluates the concrete expression with the real engine in a child process under a wall-clock
+    limit of 3 x timeout + 2 s."""
+    import operator as _op
+    from symx.core import sym_isinstance, sym_int, ite
+    M.isinstance = sym_isinstance
+    M.int = sym_int
+
     def h(c):
-        kind = c.choice("shape", list(GROWTH))
-        timeout_s = 1.0
-        a = c.int("a", 3, 9)
-        b = c.choice("b", [2, 3, 9])
-        if kind == "pow_tower":
-            d = c.int("d", 2, 40)
-            E = pow_table(b, d)
-            c.assume(E <= (1 << 29))                   # result stays below ~1 GiB: this is about time, not memory
-            bits = E                                     # a**E has at least E bits for a >= 2
-        elif kind == "factorial":
-            a = c.int("a", 4, 99_999_999)
-            d = 0
-            bits = a * 16 - (1 << 20)                    # a! >= (a/e)**a: at least 16 bits per factor once a >= 2**18
-        elif kind == "pow":
-            d = c.int("d", 2, 999_999)
-            bits = d * 4                                 # a**d < 16**d: an UPPER bound (this shape must stay within budget)
-        else:
-            d = c.int("d", 2, 999_999)
-            bits = 64
-        ok = bits <= BUDGET_BITS
-        regions = [("K-C01-1", kind in GROWTH_OPS)]
+        kind = c.choice("shape", SHAPES)
+        timeout_s = c.choice("timeout_seconds", [1.0, 0.5, 4.0])
+        a = c.int("a", 2, (1 << 40) if kind in ("pow", "int_mult") else 9)
+        b = c.choice("b", [2, 3, 9]) if kind in ("pow_tower", "sum_small") else 2
+        d = c.int("d", 2, 40)
+        n = c.int("n", 1, (1 << 40))
         expr = None
         if c.mode == "concrete":
-            expr = GROWTH[kind](a, b, d)
+            expr = expr_text(kind, a, b, d, n)
             out = run_child(expr, timeout_s)
-            ok = out is not None                         # returned within the limit
             c.observe("expr", expr)
-        c.check("C01.d", ok, {"what": "accepted expression whose evaluation is not bounded by the configured timeout",
-                              "shape": kind, "expr": expr, "timeout_s": timeout_s}, regions=regions)
+            budget = int(timeout_s * ALLOWED_BITS_PER_SECOND)
+            # violated iff the engine did not come back within 3 x timeout + 2 s, or came back having
+            # computed a result larger than the timeout's budget
+            bad = out is None or (out[0] and out[1] > budget)
+            c.check("C01.d", not bad, {"what": "accepted expression whose evaluation is not bounded by the configured timeout",
+                                       "shape": kind, "expr": expr, "timeout_s": timeout_s,
+                                       "outcome": "no return within the limit" if out is None else f"result of {out[1]} bits (budget {budget})"})
+            return
+        mito = Mitochondria(timeout_seconds=timeout_s, silent=True)
+        budget = int(timeout_s * ALLOWED_BITS_PER_SECOND)
+        info = {"shape": kind, "timeout_s": timeout_s}
+        regions = ()
+
+        def bits_of(x):
+            return x.bit_length() if isinstance(x, (int, SInt, Big)) else None
+
+        def mon_pow(l, r):
+            if isinstance(l, int) and isinstance(r, SInt) and kind == "pow_tower" and l == b:
+                return SInt.wrap(core._int_term(pow_table(l, r)))        # the inner b**d, exact
+            lo = (bits_of(l) - 1) * r                                     # the result has at least this many bits
+            c.check("C01.d", lo <= budget, {"what": "power whose result cannot be produced within the timeout was evaluated", **info}, regions=regions)
+            return Big(bits_of(l) * r)
+
+        def mon_mult(l, r):
+            for seq, k in ((l, r), (r, l)):
+                if isinstance(seq, (str, list, tuple)) and isinstance(k, (int, SInt, Big)):
+                    size = len(seq) * (k if not isinstance(k, Big) else k.bits) * 8
+                    c.check("C01.d", size <= budget, {"what": "sequence repetition whose result does not fit the timeout's budget was evaluated", **info}, regions=regions)
+                    return seq                                            # size-only: contents irrelevant
+            if isinstance(l, (SInt, Big)) or isinstance(r, (SInt, Big)):
+                lo = bits_of(l) + bits_of(r) - 1
+                c.check("C01.d", lo <= budget, {"what": "big-integer product beyond the timeout's budget was evaluated", **info}, regions=regions)
+                return Big(bits_of(l) + bits_of(r))
+            return _op.mul(l, r)
+
+        def mon_fact(x):
+            if isinstance(x, SInt):
+                # n! has at least n * (log2(n) - 2) bits
+                lo = x * (x.bit_length() - 2)
+                c.check("C01.d", lo <= budget, {"what": "factorial whose result cannot be produced within the timeout was evaluated", **info}, regions=regions)
+                return Big(x * x.bit_length())
+            return math.factorial(x)
+
+        ops = dict(type(mito).SAFE_OPERATORS)
+        ops[ast.Pow] = mon_pow
+        ops[ast.Mult] = mon_mult
+        mito.SAFE_OPERATORS = ops
+        funcs = dict(type(mito).SAFE_FUNCTIONS)
+        if funcs.get("factorial") is math.factorial:
+            # the table entry AND the engine's view of math.factorial are the same monitor object, so
+            # identity tests such as `func is math.factorial` in a guard keep working
+            M.math = _MathProxy(mon_fact)
+            funcs["factorial"] = mon_fact
+        mito.SAFE_FUNCTIONS = funcs
+
+        K = lambda v: ast.Constant(value=v)      # noqa: E731
+        if kind == "pow":
+            tree = ast.BinOp(K(a), ast.Pow(), K(n))
+        elif kind == "pow_tower":
+            tree = ast.BinOp(K(a), ast.Pow(), ast.BinOp(K(b), ast.Pow(), K(d)))
+        elif kind == "factorial":
+            tree = ast.Call(ast.Name("factorial", ast.Load()), [K(n)], [])
+        elif kind == "str_repeat":
+            tree = ast.BinOp(K("ab"), ast.Mult(), K(n))
+        elif kind == "list_repeat":
+            tree = ast.BinOp(ast.List([K(0), K(1)], ast.Load()), ast.Mult(), K(n))
+        elif kind == "int_mult":
+            p2 = ast.BinOp(K(2), ast.Pow(), K(n))
+            tree = ast.BinOp(ast.BinOp(p2, ast.Mult(), p2), ast.Mult(), K(a))
+        else:
+            tree = ast.BinOp(ast.BinOp(K(a), ast.Add(), K(b)), ast.Add(), K(d))
+        from symx.symast import FakeAst
+        M.ast = FakeAst(lambda src, mode: ast.Expression(body=tree))
+        try:
+            r = mito.metabolize("expr", MetabolicPathway.GLYCOLYSIS)
+        except Exception as e:  # noqa
+            c.fail("C01.c", {"what": "metabolize raised", "raised": repr(e), **info})
+            return
+        finally:
+            M.math = math
+        c.check("C01.d", True)
+        c.observe("success", r.success)
     return h
 
 
+class _MathProxy:
+    """the `math` module as seen by the engine, with factorial replaced by the cost monitor; the
+    monitor object is also what the table holds, so identity tests against math.factorial keep working"""
+
+    def __init__(self, fact):
+        self.factorial = fact
+
+    def __getattr__(self, k):
+        return getattr(math, k)
+
+
 def run_child(expr, timeout_s):
+    """evaluate expr with the real engine in a child process; returns (success, result_bits) or None on timeout"""
     code = ("import sys; sys.path.insert(0, %r)\n"
-            "from operon_ai.organelles.mitochondria import Mitochondria\n"
+            "from operon_ai.organelles.mitochondria import Mitochondria, MetabolicPathway\n"
             "m = Mitochondria(timeout_seconds=%r, silent=True)\n"
-            "r = m.metabolize(%r)\nprint('returned', r.success)\n" % (os.environ.get("OPERON_REPO", "/repo"), timeout_s, expr))
+            "r = m.metabolize(%r, MetabolicPathway.GLYCOLYSIS)\n"
+            "v = r.atp.value if r.success else None\n"
+            "bits = v.bit_length() if isinstance(v, int) else (len(v) * 8 if isinstance(v, (str, list, tuple)) else 0)\n"
+            "print('returned', int(bool(r.success)), bits)\n" % (os.environ.get("OPERON_REPO", "/repo"), timeout_s, expr))
     try:
-        p = subprocess.run([sys.executable, "-c", code], capture_output=True, timeout=3 * timeout_s + 2,
-                           preexec_fn=_limit_mem)
-        return p.stdout.decode()
+        p = subprocess.run([sys.executable, "-c", code], capture_output=True, timeout=3 * timeout_s + 2, preexec_fn=_limit_mem)
+        parts = p.stdout.decode().split()
+        if len(parts) >= 3 and parts[0] == "returned":
+            return bool(int(parts[1])), int(parts[2])
+        return (False, 0)        # crashed in the child (e.g. MemoryError at the rlimit): it did come back
     except subprocess.TimeoutExpired:
         return None
 
@@ -270,8 +370,8 @@ HARNESSES = {
 
 META = {
     "manifest": {
-        "text": "Bounded symbolic model checking of the implementation: Mitochondria.metabolize runs with ast.parse replaced by a stub that returns a SYMBOLIC syntax tree (or raises one of the parser's documented exceptions): the node class at every position is a choice over all ast.expr subclasses of the running interpreter, operators over all operator classes, names over allow-list representatives + every table entry added since the baseline + tools + dangerous builtins; children materialise lazily when the walker reads them, leaves range over a grid of literals chosen to trigger every exception class of the table functions. Confinement (no forbidden construct ever evaluates, is descended into, or is followed by a function/tool call), table vetting, audit-hook silence, totality (every parser exception, every table-function exception, injected RecursionError) and the ROS latch are discharged on every path. The resource clause is a z3 query over operand digits against a result-size model, replayed in a child process under a wall-clock limit.",
-        "note": "Trusted: z3, CPython's own parser (string -> tree is outside: the tree is arbitrary, which over-approximates every string), SymX lazy AST. Depth <= 2 (quick: depth 2 on the math and tool pathways only). Operand VALUES are a concrete grid {1,0,-2,2.5,'ab',1000} (the symbolic variables of this check are the tree's node classes, operators and names; symbolic operand values are C02's subject). The resource clause FAILS by design of the engine (timeout never enforced): recorded as known finding K-C01-1.",
+        "text": "Bounded symbolic model checking of the implementation: Mitochondria.metabolize runs with ast.parse replaced by a stub that returns a SYMBOLIC syntax tree (or raises one of the parser's documented exceptions): the node class at every position is a choice over all ast.expr subclasses of the running interpreter, operators over all operator classes, names over allow-list representatives + every table entry added since the baseline + tools + dangerous builtins; children materialise lazily when the walker reads them, leaves range over a grid of literals chosen to trigger every exception class of the table functions. Confinement (no forbidden construct ever evaluates, is descended into, or is followed by a function/tool call), table vetting, audit-hook silence, totality (every parser exception, every table-function exception, injected RecursionError) and the ROS latch are discharged on every path. The resource clause runs the real walker (and its result-size guard) on trees with z3 integer operands up to 2^40, with the growth operators (**, *, factorial) wrapped by cost monitors that return a size-only stand-in: z3 decides `let through by the real code => result fits the timeout's budget`; counterexamples are replayed with the real engine in a child process under a wall-clock limit.",
+        "note": "Trusted: z3, CPython's own parser (string -> tree is outside: the tree is arbitrary, which over-approximates every string), SymX lazy AST. Depth <= 2 (quick: depth 2 on the math and tool pathways only). Operand VALUES are a concrete grid {1,0,-2,2.5,'ab',1000} (the symbolic variables of this check are the tree's node classes, operators and names; symbolic operand values are C02's subject). The resource clause used to fail (timeout never enforced, K-C01-1); it was repaired by a result-size guard, and the check now executes that guard symbolically: z3 shows that every growth operation the real code lets through fits a budget of 2^22 bits per second of timeout.",
         "technique": "symbolic execution of mitochondria.py's walker over a lazily materialised symbolic AST (node class = choice over ast.expr subclasses), z3 leaves; audit hook + invocation monitors as effect oracle; z3 size model for the resource clause",
     },
     "files": ["operon_ai/organelles/mitochondria.py"],
